@@ -4,6 +4,7 @@ package c17
 
 import (
 	"fmt"
+	"strings"
 
 	"github.com/lugu/qiloop/bus/net"
 
@@ -648,6 +649,7 @@ func s8() {
 	k.check()
 	vrt.Observe("kind=%s concurrent=%v rmErr=%v recv=%d", kind.name, concurrent, rmErr != nil, len(x.received))
 }
+
 // S9: AddHandler (callback consumer behind an internal queue) || frames ||
 // RemoveHandler / Close: every frame delivered before the removal reaches the
 // callback once, in order; the closer runs exactly once; the internal
@@ -720,6 +722,7 @@ func s9() {
 	k.check()
 	vrt.Observe("how=%d got=%d closer=%d", how, len(got), closerCalls)
 }
+
 // S10: the transport's Close reports an error although it closes (TLS after a
 // peer reset), or the connection was closed underneath the endpoint (its own
 // Close is then the second one): every handler is still closed exactly once.
@@ -760,6 +763,7 @@ func s10() {
 	g.check()
 	vrt.Observe("how=%d recv=%d", how, len(h.received))
 }
+
 // S11: the finalizer of EndPointFinalizer (which runs before the reader
 // exists) registers handlers and then decides to close the endpoint - or
 // removes a handler again: both return, every handler is closed exactly once.
@@ -805,6 +809,7 @@ func s11() {
 	}
 	vrt.Observe("how=%d recv=%d", how, len(h.received))
 }
+
 // S12: frames that no handler selects - of every message type, Error frames
 // with payloads that are not a string value among them - are dropped by the
 // reader without disturbing anything: no panic, the handlers stay registered
@@ -839,6 +844,77 @@ func s12() {
 	vrt.Observe("typ=%d", typ)
 }
 
+// S13: a handler that stays registered (keep=true) has no room in its queue
+// while frames that are not calls arrive for it (an event, a reply: nobody
+// can be told that they were dropped); then the handler is removed / the
+// endpoint is closed, and only then does the consumer start reading: nothing
+// may reach the queue after the closer ran, and nothing may crash.
+func s13() {
+	a, b := vnet.NewPair("ep", "peer")
+	ep := net.NewEndPoint(a)
+	m := &mon{name: "slow", match: matchAllKeep, early: true}
+	q := make(chan *net.Message, vrt.ChooseFree(2, "queue capacity 0/1"))
+	gate := make(chan struct{})
+	afterCloser := 0
+	m.drain = vrt.GoNamed("drain-slow", func() {
+		<-gate
+		for msg := range q {
+			if m.closerCalls > 0 {
+				afterCloser++
+			}
+			m.received = append(m.received, msg)
+		}
+		m.queueClosed = true
+		if m.closerCalls != 1 {
+			vrt.Failf("queue-closed-without-closer/"+m.name, "queue closed while closer had been called %d times", m.closerCalls)
+		}
+	})
+	m.id = ep.MakeHandler(m.filter, q, m.closer)
+	vrt.GoNamed("peer-reader", func() {
+		for {
+			var r net.Message
+			if r.Read(b) != nil {
+				return
+			}
+		}
+	})
+	how := vrt.ChooseFree(3, "RemoveHandler / Close / peer close")
+	vrt.Explore()
+	w1 := vrt.GoWorker("peer", func() {
+		for i, typ := range []uint8{net.Event, net.Reply, net.Event} {
+			f := net.NewMessage(net.NewHeader(typ, 1, 1, 100, uint32(20+i)), []byte{byte(20 + i), byte(21 + i)})
+			f.Write(b)
+		}
+	})
+	w2 := vrt.GoWorker("ender", func() {
+		switch how {
+		case 0:
+			ep.RemoveHandler(m.id)
+		case 1:
+			ep.Close()
+		case 2:
+			b.Close()
+		}
+	})
+	vrt.Quiesce()
+	close(gate)
+	vrt.Quiesce()
+	workersDone(w1, w2)
+	if afterCloser > 0 {
+		vrt.Flag("drained-after-closer")
+	}
+	checkIntact("corrupt/slow", m.received)
+	ep.Close()
+	vrt.Quiesce()
+	m.check()
+	for _, bl := range vrt.BlockedThreads() {
+		if strings.HasPrefix(bl.Label, "send:") {
+			vrt.Failf("sender-left-behind/slow", "a thread is still blocked sending to the handler's queue after the endpoint was closed: %s on %s", bl.Thread, bl.Label)
+		}
+	}
+	vrt.Observe("how=%d recv=%d", how, len(m.received))
+}
+
 func init() {
 	add := func(name string, body func(), q, t int, doc string, must ...string) {
 		reg.Register(&reg.Scenario{Property: "C17", Name: name, Body: body, Quick: q, Thorough: t, Doc: doc, MustFlag: must})
@@ -860,5 +936,6 @@ func init() {
 	add("s10-close-reports-error", s10, 1, 3, "the transport's Close returns an error (explicit Close / peer close), or the connection is closed underneath the endpoint, while a frame arrives")
 	add("s11-close-inside-finalizer", s11, 1, 3, "the finalizer of EndPointFinalizer closes the endpoint (or removes a handler) before the reader goroutine exists")
 	add("s12-frames-nobody-selects", s12, 0, 1, "a frame of each of the 8 message types with 7 payload shapes (Error frames whose payload is not a string value among them) that no handler selects, then a frame that one handler selects, then Close()")
+	add("s13-slow-consumer-events", s13, 2, 4, "a handler that stays registered has a full queue (capacity 0 or 1, consumer held back) while an Event, a Reply and an Event arrive for it || RemoveHandler / Close / peer close; then the consumer drains: no crash, closer once then queue closed, no thread left sending to the queue")
 	add("s6-receiveany-close", s6, 2, 99, "ReceiveAny || two frames || Close()")
 }
